@@ -1363,9 +1363,9 @@ package gocql
 
 //@ func (recv HostTierer) MaxHostTier
 //@   interface
-//@   trusted MaxHostTier is a constant of the implementation
+//@   trusted MaxHostTier is a small constant of the implementation
 //@   modifies nothing
-//@   ensures result == tier_max(recv)
+//@   ensures result == tier_max(recv) && result < 1<<16
 
 //@ func (recv HostSelectionPolicy) IsLocal
 //@   interface
@@ -1382,6 +1382,49 @@ package gocql
 //@   trusted a SelectedHost denotes one host: Info returns it on every call; reads only
 //@   modifies nothing
 //@   ensures result == sel_info(recv)
+
+// Replica lists hold hosts of the ring (C10): entries are non-nil. Assumed here.
+//@ func (h tokenRingReplicas) replicasFor
+//@   trusted returns a pointer into the replica table (interior pointer: outside the memory model); the table's host lists hold ring hosts, never nil (C10)
+//@   modifies nothing
+//@   ensures len(h) == 0 ==> result == nil
+//@   ensures result != nil ==> forall(b, 0 <= b && b < len(result.hosts), result.hosts[b] != nil)
+
+//@ func shuffleHosts
+//@   trusted math/rand.Shuffle permutes: same length, same elements; the input is not modified
+//@   modifies nothing
+//@   ensures len(result) == len(hosts)
+//@   ensures forall(a, 0 <= a && a < len(hosts), hosts[a] != nil) ==> forall(b, 0 <= b && b < len(result), result[b] != nil)
+
+//@ func (t *tokenRing) GetHostForToken
+//@   props C11 C10
+//@   nil_receiver_ok
+//@   modifies nothing
+//@   ensures (t == nil || len(t.tokens) == 0) ==> result0 == nil
+
+// What a query object does while the policy picks: it never writes the policy's cluster metadata
+// (clusterMeta, tokenRing and the replica tables are copy-on-write and replaced only by the policy).
+//@ func (recv ExecutableQuery) GetRoutingKey
+//@   interface
+//@   trusted query objects do not write host-selection state
+//@   preserves_types clusterMeta tokenRing tokenAwareHostPolicy hostTokens cowHostList
+
+//@ func (recv ExecutableQuery) Keyspace
+//@   interface
+//@   trusted a getter
+//@   modifies nothing
+
+//@ func (recv partitioner) Hash
+//@   interface
+//@   trusted the three partitioners are pure functions of the key
+//@   modifies nothing
+
+// Pick establishes the iterator's invariant (closure-requires obligations).
+//@ func (t *tokenAwareHostPolicy) Pick
+//@   props C11
+//@   requires t.fallback != nil
+//@   requires dyn(t.metadata.v) == nil || typeis(t.metadata.v, *clusterMeta)
+//@   requires typeis(t.metadata.v, *clusterMeta) && unbox(t.metadata.v, *clusterMeta) != nil && unbox(t.metadata.v, *clusterMeta).tokenRing != nil ==> unbox(t.metadata.v, *clusterMeta).tokenRing.partitioner != nil
 
 // The iterator returned by tokenAwareHostPolicy.Pick. Closure invariant (requires = ensures):
 // positions in range, and once the fallback iterator exists both replica phases are exhausted
